@@ -32,10 +32,10 @@ var (
 	xssAttrBreaks = []string{"<a ", "<img src=x ", " ", "x ", "' ", "\" ", "` ", "x' ", "x\"/", "x`\t", "<b\n", "<b/", "<a\f", "<a\r", "<a x=1\t", "<a x='1'",
 		// closing quote of the surrounding attribute value directly followed by the injected name (no separator)
 		"'", "\"", "`", "x'", "x\"", "x`", "<a x=\"1\"", "<a x=`1`"}
-	xssTagForms   = []string{"<T>", "<T x>", "<T/>", "<T/x=1>", "<T\tx", "<T", "<T\nx=1>", "<T\fx>", "<T\r>"}
-	xssValForms   = []string{"=1", "=alert(1)", "='x'", "=\"x\"", "=`x`", " = 1", "\t=\n1", "=1>", "\f=\r'x'", "=x y"}
-	xssSchemes    = []string{"javascript:alert(1)", "vbscript:x", "data:text/html,x", "view-source:x", "JaVaScRiPt:x", "&#106;avascript:x", "&#x6A;avascript:x", "&#X76iew-source:x", " \tjavascript:x", "\x01javascript:x", "jav&#x0A;ascript:x", "java\x00script:x", "&#0000106avascript:x", "\x7fdata:x", "\xa0vbscript:x", "VIEW-SOURCE:x", "d&#97;ta:x", "&#9;javascript:x"}
-	xssMarkup     = []string{"<!doctype html>", "<!DOCTYPE x", "<!DocType", "<!ENTITY x>", "<!entity", "<![if IE]>", "<!--[if gte IE 4]>", "<!--[IF x]>", "<?import x>", "<?IMPORT x", "<?xml version>", "<?XML x", "<?xml-stylesheet href=x?>", "<!--`-->", "<%`%>", "<!`>", "<?`"}
+	xssTagForms = []string{"<T>", "<T x>", "<T/>", "<T/x=1>", "<T\tx", "<T", "<T\nx=1>", "<T\fx>", "<T\r>"}
+	xssValForms = []string{"=1", "=alert(1)", "='x'", "=\"x\"", "=`x`", " = 1", "\t=\n1", "=1>", "\f=\r'x'", "=x y"}
+	xssSchemes  = []string{"javascript:alert(1)", "vbscript:x", "data:text/html,x", "view-source:x", "JaVaScRiPt:x", "&#106;avascript:x", "&#x6A;avascript:x", "&#X76iew-source:x", " \tjavascript:x", "\x01javascript:x", "jav&#x0A;ascript:x", "java\x00script:x", "&#0000106avascript:x", "\x7fdata:x", "\xa0vbscript:x", "VIEW-SOURCE:x", "d&#97;ta:x", "&#9;javascript:x"}
+	xssMarkup   = []string{"<!doctype html>", "<!DOCTYPE x", "<!DocType", "<!ENTITY x>", "<!entity", "<![if IE]>", "<!--[if gte IE 4]>", "<!--[IF x]>", "<?import x>", "<?IMPORT x", "<?xml version>", "<?XML x", "<?xml-stylesheet href=x?>", "<!--`-->", "<%`%>", "<!`>", "<?`"}
 )
 
 var (
@@ -203,7 +203,7 @@ func TestC04(t *testing.T) {
 	}
 
 	p = c.rec.NewPart("rapid_obfuscations", "rapid: vector x per-letter case mask over the whole vector x 0..3 NULs at drawn positions strictly inside the name", true, false, "")
-	c.Rapid(p, 8, pick(20000, 600000), func(rt *rapid.T, sh int) ev.Case {
+	c.Rapid(p, 8, pick(80000, 900000), func(rt *rapid.T, sh int) ev.Case {
 		v := g[rapid.IntRange(0, len(g)-1).Draw(rt, "vec")]
 		b := []byte(v.s)
 		ex := xssExempt(v.s)
